@@ -1,6 +1,7 @@
 mod chains;
 mod construct;
 mod iter;
+mod layoutops;
 mod overlap;
 mod util;
 
@@ -11,6 +12,7 @@ fn main() {
         "overlap" => overlap::main_overlap(),
         "construct" => construct::main_construct(),
         "chains" => chains::main_chains(),
+        "layout" => layoutops::main_layout(),
         _ => {
             eprintln!("usage: vh-tensor <iter|overlap|construct|chains|layout> [options]");
             std::process::exit(2);
